@@ -37,7 +37,9 @@ Proof. intros; unfold d2, sq; ring. Qed.
 Lemma d2_zero : forall p q, d2 p q = 0 <-> p = q.
 Proof.
   intros [px py] [qx qy]; unfold d2, sq; cbn [fst snd]; split.
-  - intro H. assert (px - qx = 0) by nia. assert (py - qy = 0) by nia. f_equal; lia.
+  - intro H. pose proof (Z.square_nonneg (px - qx)) as H1. pose proof (Z.square_nonneg (py - qy)) as H2.
+    assert (E1 : (px - qx) * (px - qx) = 0) by lia. assert (E2 : (py - qy) * (py - qy) = 0) by lia.
+    apply Z.mul_eq_0 in E1. apply Z.mul_eq_0 in E2. f_equal; lia.
   - intro H; inversion H; subst; ring.
 Qed.
 
@@ -73,7 +75,9 @@ Section Branches.
     rle (mkr (d2 p a) 1) (pd2 p (hlerp a b n m)) = true.
   Proof.
     intros Ht n m Hm Hn. rewrite pd2_lerp. apply rle_iff. cbn [rn rd]. unfold sq.
-    fold t l2. pose proof l2_nonneg. nia.
+    fold t l2. pose proof l2_nonneg.
+    assert (0 <= m * n) by nia. assert (m * n * t <= 0) by nia. assert (0 <= n * n) by nia. assert (0 <= n * n * l2) by nia.
+    nia.
   Qed.
   (* beyond b *)
   Lemma beyond_min : l2 <= t -> forall n m, 0 < m -> 0 <= n <= m ->
@@ -83,6 +87,7 @@ Section Branches.
     assert (Hb : d2 p b = d2 p a - 2 * t + l2).
     { subst t l2. destruct p as [px py], a as [ax ay], b as [bx by_]. unfold d2, dotp, sq; cbn [fst snd]. ring. }
     rewrite Hb. pose proof l2_nonneg.
+    assert (0 <= m - n) by lia. assert (0 <= 2 * t * m - l2 * (m + n)) by nia.
     assert (0 <= (m - n) * (2 * t * m - l2 * (m + n))) by nia. nia.
   Qed.
   (* the foot of the perpendicular *)
@@ -98,7 +103,10 @@ Section Branches.
   Lemma foot_attained : 0 < l2 -> req (pd2 p (hlerp a b t l2)) (mkr (sq (orient a b p)) l2).
   Proof.
     intros Hl. rewrite pd2_lerp. unfold req. cbn [rn rd]. fold t l2.
-    pose proof (lagrange a b p) as L. fold t l2 in L. unfold sq in *. nia.
+    pose proof (lagrange a b p) as L. fold t l2 in L. unfold sq in *.
+    set (o := orient a b p) in *. set (D := d2 p a) in *.
+    replace ((l2 * l2 * D - 2 * l2 * t * t + t * t * l2) * l2) with (l2 * l2 * (D * l2) - l2 * l2 * (t * t)) by ring.
+    rewrite L. ring.
   Qed.
 End Branches.
 
@@ -110,17 +118,19 @@ Theorem dist2_pt_seg_spec : forall p a b,
 Proof.
   intros p a b. unfold dist2_pt_seg.
   destruct (Z.leb_spec (dotp a b p) 0) as [H1 | H1].
-  - cbn [fst snd]. repeat split.
-    + cbn [rn]. apply d2_nonneg. + cbn; lia. + apply hon_left.
+  - cbn [fst snd]. split; [|split; [|split]].
+    + split; cbn [rn rd]; [apply d2_nonneg | lia].
+    + apply hon_left.
     + unfold req, pd2, hd2, hp, d2, sq; cbn [rn rd fst snd]. ring.
     + apply before_min; assumption.
   - destruct (Z.leb_spec (d2 a b) (dotp a b p)) as [H2 | H2].
-    + cbn [fst snd]. repeat split.
-      * cbn [rn]. apply d2_nonneg. * cbn; lia. * apply hon_right.
+    + cbn [fst snd]. split; [|split; [|split]].
+      * split; cbn [rn rd]; [apply d2_nonneg | lia].
+      * apply hon_right.
       * unfold req, pd2, hd2, hp, d2, sq; cbn [rn rd fst snd]. ring.
       * apply beyond_min; assumption.
-    + cbn [fst snd]. assert (Hl : 0 < d2 a b) by lia. repeat split.
-      * cbn [rn]. apply sq_nonneg. * cbn [rd]; lia.
+    + cbn [fst snd]. assert (Hl : 0 < d2 a b) by lia. split; [|split; [|split]].
+      * split; cbn [rn rd]; [apply sq_nonneg | lia].
       * apply hon_lerp; lia.
       * apply foot_attained; assumption.
       * apply foot_min; assumption.
@@ -137,16 +147,3 @@ Proof. intros; apply (dist2_pt_seg_spec p a b). Qed.
 Lemma pt_seg_att : forall p a b, req (pd2 p (snd (dist2_pt_seg p a b))) (fst (dist2_pt_seg p a b)).
 Proof. intros; apply (dist2_pt_seg_spec p a b). Qed.
 
-(* zero exactly when p lies on the segment *)
-Lemma pt_seg_zero_on : forall p a b, rn (fst (dist2_pt_seg p a b)) = 0 -> hon (hp p) a b.
-Proof.
-  intros p a b H. pose proof (pt_seg_att p a b) as A. pose proof (pt_seg_on p a b) as O.
-  destruct (dist2_pt_seg p a b) as [v [[X Y] W]]. cbn [fst snd] in *.
-  unfold req, pd2, hd2, hp in A. cbn [rn rd] in A. rewrite H in A.
-  destruct O as [HW [n [m [Hm [Hn [EX EY]]]]]].
-  assert (S0 : sq (fst p * W - X * 1) + sq (snd p * W - Y * 1) = 0).
-  { assert (0 < rd v \/ rd v <= 0) as [Hp|Hp] by lia.
-    - pose proof (sq_nonneg (fst p * W - X * 1)); pose proof (sq_nonneg (snd p * W - Y * 1)). nia.
-    - pose proof (pt_seg_ok p a b) as K. exact (False_ind _ (Z.lt_irrefl 0 (Z.lt_le_trans _ _ _ (proj2 (proj2 (dist2_pt_seg_spec p a b) |> fun _ => K)) Hp))). }
-  unfold hon, hp. split; [lia|]. exists n, m. repeat split; try lia.
-Abort.
